@@ -28,7 +28,7 @@ from fractions import Fraction
 
 import numpy as np
 
-from ..common import InfraError
+from ..common import CorrespondenceBroken, InfraError
 from ..exact import Pure, case_rng, describe, present_nd
 from ..pool import Result, fold, run_pool, worker_driver
 
@@ -825,7 +825,7 @@ def _npa_vars(P, shape):
     rest = [v for v in P.variables() if all(v is not o for o in objv)]
     if len(objv) == ai * bi and len(rest) == 1 and all(tuple(v.shape) == (ao, bo) for v in objv):
         return rest[0], {(x, y): objv[x * bi + y] for x in range(ai) for y in range(bi)}, "creation-order"
-    raise InfraError(f"cannot identify the variables of the captured NPA problem: {[(v.name(), v.shape) for v in P.variables()]}")
+    raise CorrespondenceBroken(f"cannot identify the variables of the captured NPA problem: {[(v.name(), v.shape) for v in P.variables()]}")
 
 
 def _game_of(task):
@@ -872,7 +872,7 @@ def work_npa_embed(task, res):
         res.violation("NonlocalGame.commuting_measurement_value_upper_bound: caller's arguments were modified",
                       {"function": "NonlocalGame.commuting_measurement_value_upper_bound", "args": base_desc, "modified": guard.modified(), "theorem": "methods_pure"})
     if len(probs) != 1:
-        raise InfraError(f"expected one cvxpy problem from commuting_measurement_value_upper_bound, captured {len(probs)}")
+        raise CorrespondenceBroken(f"expected one cvxpy problem from commuting_measurement_value_upper_bound, captured {len(probs)}")
     P = probs[0]
     rvar, mvars, how = _npa_vars(P, shape)
     res.count(f"npa/embed/variables-identified-by-{how}")
@@ -1017,7 +1017,7 @@ def _ns_identify(P, shape, prob, pred):
     objv = sorted(P.objective.variables(), key=lambda v: v.id)
     idx = [(a, b, x, y) for a in range(ao) for b in range(bo) for x in range(ai) for y in range(bi)]
     if len(objv) != len(idx) or any(tuple(v.shape) != (2, 2) for v in objv):
-        raise InfraError(f"nonsignaling_value: expected {len(idx)} 2x2 blocks in the objective, found {[(v.shape) for v in objv][:5]}... ({len(objv)})")
+        raise CorrespondenceBroken(f"nonsignaling_value: expected {len(idx)} 2x2 blocks in the objective, found {[(v.shape) for v in objv][:5]}... ({len(objv)})")
     by_order = dict(zip(idx, objv))
     target = {}
     for t in idx:
@@ -1083,7 +1083,7 @@ def work_ns_embed(task, res):
         res.violation("NonlocalGame.nonsignaling_value: caller's arguments were modified",
                       {"function": "NonlocalGame.nonsignaling_value", "args": base_desc, "modified": guard.modified(), "theorem": "methods_pure"})
     if len(probs) != 1:
-        raise InfraError(f"expected one cvxpy problem from nonsignaling_value, captured {len(probs)}")
+        raise CorrespondenceBroken(f"expected one cvxpy problem from nonsignaling_value, captured {len(probs)}")
     P = probs[0]
     kvars, how = _ns_identify(P, shape, prob, pred)
     res.count(f"ns/embed/blocks-identified-by-{how}")
